@@ -83,7 +83,7 @@ def run(ch, params, decoded=False):
         problem = None
         if r1 != r2:
             problem = ("RETURN", f"{name} returned {r1!r}, model {r2!r}")
-        else:
+        elif hasattr(real, "head") and hasattr(real, "cache"):
             wf = world.lru_wellformed(real)
             if wf:
                 problem = ("STRUCTURE", wf)
